@@ -50,11 +50,11 @@ def nrOfSpecificPrefixes (r : Roa) : Option Nat := do
   checkedShl 128 1 d
 
 /-- `RoaPayload::includes` -/
-def Roa.includes (r o : Roa) : Bool :=
+def _root_.KM.Bgp.Roa.includes (r o : Roa) : Bool :=
   r.asn == o.asn && r.pfx.matchingOrLessSpecific o.pfx && decide (r.effMax ≥ o.effMax)
 
 /-- `RoaPayload::overlaps` -/
-def Roa.overlaps (r o : Roa) : Bool :=
+def _root_.KM.Bgp.Roa.overlaps (r o : Roa) : Bool :=
   r.pfx.matchingOrLessSpecific o.pfx || o.pfx.matchingOrLessSpecific r.pfx
 
 /-! ### prefix parsing and masks -/
